@@ -84,4 +84,99 @@ theorem zca_factor_spec (d : Nat) (Q : Nat → Nat → Rat) (D s : Nat → Rat) 
   rw [Finset.sum_congr rfl (fun j _ => hin j), Finset.sum_comm, rsum_eq_sum_fin]
   exact Finset.sum_congr rfl (fun i _ => by rw [rsum_eq_sum_fin])
 
+/-! ### singular covariance: directions whose eigenvalue is cleared get the scale 0 -/
+
+theorem zca_matrix_identity_general {n : Type} [Fintype n] [DecidableEq n] (Q : Matrix n n ℚ) (D s e : n → ℚ)
+    (hQ : Qᵀ * Q = 1) (hs : ∀ k, s k * s k * D k = e k) :
+    (Q * diagonal s * Qᵀ) * (Q * diagonal D * Qᵀ) * (Q * diagonal s * Qᵀ)ᵀ = Q * diagonal e * Qᵀ := by
+  have ht : (Q * diagonal s * Qᵀ)ᵀ = Q * diagonal s * Qᵀ := by
+    rw [transpose_mul, transpose_mul, transpose_transpose, diagonal_transpose, Matrix.mul_assoc]
+  rw [ht]
+  calc Q * diagonal s * Qᵀ * (Q * diagonal D * Qᵀ) * (Q * diagonal s * Qᵀ)
+      = Q * diagonal s * (Qᵀ * Q) * diagonal D * (Qᵀ * Q) * diagonal s * Qᵀ := by
+        simp only [Matrix.mul_assoc]
+    _ = Q * (diagonal s * diagonal D * diagonal s) * Qᵀ := by
+        rw [hQ]; simp only [Matrix.mul_one, Matrix.mul_assoc]
+    _ = Q * diagonal e * Qᵀ := by
+        congr 2
+        rw [diagonal_mul_diagonal, diagonal_mul_diagonal]
+        congr 1
+        funext k
+        have := hs k
+        rw [← this]; ring
+
+/-- `Q·diag(e)·Qᵀ` with `e_k ∈ {0,1}` is idempotent: the orthogonal projector onto the kept eigen-directions -/
+theorem zca_projector_idem {n : Type} [Fintype n] [DecidableEq n] (Q : Matrix n n ℚ) (e : n → ℚ)
+    (hQ : Qᵀ * Q = 1) (he : ∀ k, e k * e k = e k) :
+    (Q * diagonal e * Qᵀ) * (Q * diagonal e * Qᵀ) = Q * diagonal e * Qᵀ := by
+  calc Q * diagonal e * Qᵀ * (Q * diagonal e * Qᵀ)
+      = Q * diagonal e * (Qᵀ * Q) * diagonal e * Qᵀ := by simp only [Matrix.mul_assoc]
+    _ = Q * (diagonal e * diagonal e) * Qᵀ := by rw [hQ]; simp only [Matrix.mul_one, Matrix.mul_assoc]
+    _ = Q * diagonal e * Qᵀ := by
+        congr 2
+        rw [diagonal_mul_diagonal]
+        congr 1
+        funext k
+        exact he k
+
+theorem toMat_orthogonal (d : Nat) (Q : Nat → Nat → Rat)
+    (hQ : ∀ k, k < d → ∀ l, l < d → rsum d (fun i => Q i k * Q i l) = if k = l then 1 else 0) :
+    (toMat d Q)ᵀ * toMat d Q = 1 := by
+  ext k l
+  rw [Matrix.mul_apply, Matrix.one_apply]
+  have := hQ k k.isLt l l.isLt
+  rw [rsum_eq_sum_fin] at this
+  simp only [Matrix.transpose_apply, toMat_apply]
+  rw [this]
+  by_cases h : k = l
+  · simp [h]
+  · have : (k : Nat) ≠ (l : Nat) := fun e => h (Fin.ext e)
+    simp [h, this]
+
+theorem toMat_diag_entry (d : Nat) (Q : Nat → Nat → Rat) (v : Nat → Rat) (a i : Fin d) :
+    (toMat d Q * diagonal (toVec d v) * (toMat d Q)ᵀ) a i = rsum d (fun k => Q a k * v k * Q i k) := by
+  rw [Matrix.mul_apply, rsum_eq_sum_fin]
+  exact Finset.sum_congr rfl (fun k _ => by
+    rw [Matrix.mul_diagonal, Matrix.transpose_apply, toMat_apply, toMat_apply, toVec_apply])
+
+/-- the factor `Q·diag(s)·Qᵀ` with `s_k²·D_k = e_k`: `C·Cov·Cᵀ = Q·diag(e)·Qᵀ` -/
+theorem zca_factor_spec_general (d : Nat) (Q : Nat → Nat → Rat) (D s e : Nat → Rat) (cov : Nat → Nat → Rat)
+    (hQ : ∀ k, k < d → ∀ l, l < d → rsum d (fun i => Q i k * Q i l) = if k = l then 1 else 0)
+    (hcov : ∀ i, i < d → ∀ j, j < d → cov i j = rsum d (fun k => Q i k * D k * Q j k))
+    (hs : ∀ k, k < d → s k * s k * D k = e k)
+    (a b : Nat) (ha : a < d) (hb : b < d) :
+    rsum d (fun i => rsum d (fun j => zcaFactor Q s d a i * cov i j * zcaFactor Q s d b j))
+      = rsum d (fun k => Q a k * e k * Q b k) := by
+  have hQm := toMat_orthogonal d Q hQ
+  have hid := zca_matrix_identity_general (toMat d Q) (toVec d D) (toVec d s) (toVec d e) hQm (fun k => hs k k.isLt)
+  have hC : ∀ a i : Fin d, (toMat d Q * diagonal (toVec d s) * (toMat d Q)ᵀ) a i = zcaFactor Q s d a i :=
+    fun a i => toMat_diag_entry d Q s a i
+  have hCov : ∀ i j : Fin d, (toMat d Q * diagonal (toVec d D) * (toMat d Q)ᵀ) i j = cov i j := by
+    intro i j
+    rw [toMat_diag_entry, hcov i i.isLt j j.isLt]
+  have hentry := congrFun (congrFun hid ⟨a, ha⟩) ⟨b, hb⟩
+  rw [Matrix.mul_apply, toMat_diag_entry] at hentry
+  rw [← hentry]
+  have hin : ∀ j : Fin d, (toMat d Q * diagonal (toVec d s) * (toMat d Q)ᵀ * (toMat d Q * diagonal (toVec d D) * (toMat d Q)ᵀ)) ⟨a, ha⟩ j
+      * (toMat d Q * diagonal (toVec d s) * (toMat d Q)ᵀ)ᵀ j ⟨b, hb⟩
+      = ∑ i : Fin d, zcaFactor Q s d a i * cov i j * zcaFactor Q s d b j := by
+    intro j
+    rw [Matrix.mul_apply, Matrix.transpose_apply, hC, Finset.sum_mul]
+    exact Finset.sum_congr rfl (fun i _ => by rw [hC, hCov])
+  rw [Finset.sum_congr rfl (fun j _ => hin j), Finset.sum_comm, rsum_eq_sum_fin]
+  exact Finset.sum_congr rfl (fun i _ => by rw [rsum_eq_sum_fin])
+
+/-- the projector in function form is idempotent -/
+theorem zca_projector_spec (d : Nat) (Q : Nat → Nat → Rat) (e : Nat → Rat)
+    (hQ : ∀ k, k < d → ∀ l, l < d → rsum d (fun i => Q i k * Q i l) = if k = l then 1 else 0)
+    (he : ∀ k, k < d → e k * e k = e k) (a b : Nat) (ha : a < d) (hb : b < d) :
+    rsum d (fun j => rsum d (fun k => Q a k * e k * Q j k) * rsum d (fun k => Q j k * e k * Q b k))
+      = rsum d (fun k => Q a k * e k * Q b k) := by
+  have hQm := toMat_orthogonal d Q hQ
+  have hid := zca_projector_idem (toMat d Q) (toVec d e) hQm (fun k => he k k.isLt)
+  have hentry := congrFun (congrFun hid ⟨a, ha⟩) ⟨b, hb⟩
+  rw [Matrix.mul_apply, toMat_diag_entry] at hentry
+  rw [← hentry, rsum_eq_sum_fin]
+  exact Finset.sum_congr rfl (fun j _ => by rw [toMat_diag_entry, toMat_diag_entry])
+
 end SharkVerif.Trainers
